@@ -32,42 +32,84 @@ variable {α : Type} [Field α] [LinearOrder α] [IsStrictOrderedRing α]
 def Contained (heads : List (Option (List (Pt α)))) (ring : List (Pt α)) : Prop :=
   ∃ outer, some outer ∈ heads ∧ polygonContains outer ring = true
 
+theorem flatten_modify_append {β : Type} (x : β) : ∀ (l : List (List β)) (j : Nat) (o : β) (hs : List β),
+    l[j]? = some (o :: hs) →
+    (l.modify j (· ++ [x])).flatten.Perm (l.flatten ++ [x]) ∧
+      (l.modify j (· ++ [x])).map List.head? = l.map List.head? := by
+  intro l
+  induction l with
+  | nil => intro j o hs hj; simp at hj
+  | cons a l ih =>
+    intro j o hs hj
+    cases j with
+    | zero =>
+      rw [List.getElem?_cons_zero, Option.some.injEq] at hj
+      subst hj
+      rw [List.modify_zero_cons]
+      constructor
+      · simp only [List.flatten_cons, List.append_assoc]
+        exact List.Perm.append_left _ List.perm_append_comm
+      · simp
+    | succ j =>
+      rw [List.getElem?_cons_succ] at hj
+      rw [List.modify_succ_cons]
+      obtain ⟨p1, p2⟩ := ih j o hs hj
+      constructor
+      · simp only [List.flatten_cons, List.append_assoc]
+        exact List.Perm.append_left _ p1
+      · simp only [List.map_cons, p2]
+
 theorem addTo_keep (mp : List (List (List (Pt α)))) (ring : List (Pt α)) : ∀ out,
     addToMultiPolygon mp ring = .ok out → Contained (mp.map List.head?) ring →
     out.flatten.Perm (mp.flatten ++ [ring]) ∧ out.map List.head? = mp.map List.head? := by
-  induction mp with
-  | nil =>
-    intro out _ hc
-    obtain ⟨outer, hm, _⟩ := hc
-    simp at hm
-  | cons pg rest ih =>
-    intro out h hc
-    cases pg with
-    | nil => simp [addToMultiPolygon] at h
-    | cons outer holes =>
-      rw [addToMultiPolygon] at h
-      split_ifs at h with hcont
-      · simp only [Res.ok.injEq] at h
-        subst h
-        constructor
-        · simp only [List.flatten_cons, List.append_assoc]
-          refine List.Perm.append_left _ ?_
-          exact List.perm_append_comm
-        · simp
-      · obtain ⟨out0, h1, h⟩ := resD_bind_eq_ok h
-        simp only [resD_pure, Res.ok.injEq] at h
-        subst h
-        have hc' : Contained (rest.map List.head?) ring := by
-          obtain ⟨o', hm, hp⟩ := hc
-          simp only [List.map_cons, List.head?_cons, List.mem_cons, Option.some.injEq] at hm
-          rcases hm with rfl | hm
-          · exact absurd hp hcont
-          · exact ⟨o', hm, hp⟩
-        obtain ⟨p1, p2⟩ := ih out0 h1 hc'
-        constructor
-        · simp only [List.flatten_cons, List.append_assoc]
-          exact List.Perm.append_left _ p1
-        · simp [p2]
+  intro out h hc
+  rcases addTo_spec mp ring out h with ⟨_, hno⟩ | ⟨j, outer, holes, hj, rfl, _, _⟩
+  · obtain ⟨o, hm, hp⟩ := hc
+    obtain ⟨pg, hpg, e⟩ := List.mem_map.1 hm
+    obtain ⟨o', hs, rfl, hf⟩ := hno pg hpg
+    simp only [List.head?_cons, Option.some.injEq] at e
+    subst e
+    rw [hp] at hf
+    cases hf
+  · exact flatten_modify_append ring mp j outer holes hj
+
+/-- the point of fix C16-3.  When `addToMultiPolygon` attaches the ring to polygon number `j`, the outer
+    ring of that polygon contains a vertex of the ring, and the choice is innermost for the scan: no LATER
+    polygon both contains a vertex of the ring and has a vertex of its outer ring inside polygon `j`'s
+    outer ring (such a polygon would have replaced `j`). -/
+theorem addTo_innermost (mp : List (List (List (Pt α)))) (ring : List (Pt α)) (out : List (List (List (Pt α))))
+    (h : addToMultiPolygon mp ring = .ok out) (j : Nat) (hj : j < mp.length)
+    (ho : out = mp.modify j (· ++ [ring])) :
+    ∃ outer, mp[j].head? = some outer ∧ polygonContains outer ring = true ∧
+      ∀ k (hk : k < mp.length), j < k → ∀ outerk, mp[k].head? = some outerk →
+        polygonContains outerk ring = true → polygonContains outer outerk = false := by
+  -- the position at which a ring was appended is determined by the result
+  have hpos : ∀ j', j' < mp.length → out = mp.modify j' (· ++ [ring]) → j' = j := by
+    intro j' hj' ho'
+    by_contra hne
+    have e : (mp.modify j' (· ++ [ring]))[j]'(by rw [List.length_modify]; exact hj) =
+        (mp.modify j (· ++ [ring]))[j]'(by rw [List.length_modify]; exact hj) := by
+      simp only [← ho', ← ho]
+    rw [List.getElem_modify, List.getElem_modify, if_neg hne, if_pos rfl] at e
+    have := congrArg List.length e
+    simp at this
+  rcases addTo_spec mp ring out h with ⟨rfl, _⟩ | ⟨j', outer, holes, hj', ho', hc, hlater⟩
+  · exfalso
+    have e : out[j] = (out.modify j (· ++ [ring]))[j]'(by rw [List.length_modify]; exact hj) := by
+      simp only [← ho]
+    rw [List.getElem_modify, if_pos rfl] at e
+    have := congrArg List.length e
+    simp at this
+  · obtain ⟨hj'l, hj'e⟩ := List.getElem?_eq_some_iff.1 hj'
+    have : j' = j := hpos j' hj'l ho'
+    subst this
+    refine ⟨outer, by rw [hj'e]; rfl, hc, ?_⟩
+    intro k hk hjk outerk hhead hck
+    obtain ⟨o', hs, e, hf⟩ := hlater k mp[k] hjk (List.getElem?_eq_getElem hk)
+    rw [e, List.head?_cons, Option.some.injEq] at hhead
+    subst hhead
+    rw [hck, Bool.true_and] at hf
+    exact hf
 
 theorem addAll_keep (rings : List (List (Pt α))) : ∀ (mp out : List (List (List (Pt α)))),
     addAll mp rings = .ok out → (∀ ring ∈ rings, Contained (mp.map List.head?) ring) →
